@@ -24,6 +24,11 @@ MUTANTS = [
     ("C01", "fire", F, "    formula = (ungrouped_mixture | compound | grouped_mixture)", "    formula = (compound | ungrouped_mixture | grouped_mixture)", "compound tried before the mixtures: '2L H2O@1' is rejected (reverse of the fix)"),
     ("C01", "silent", F, "    formula = (ungrouped_mixture | compound | grouped_mixture)", "    formula = (ungrouped_mixture | grouped_mixture | compound)", "grouped mixture before compound (disjoint first characters)"),
     ("C01", "fire", F, "    mixture << (grouped_mixture | compound)", "    mixture << (compound | grouped_mixture)", "compound tried before the parenthesised mixture: '(1L H2O@1 // ...)' is rejected (reverse of the fix)"),
+    ("C01", "fire", I_, "    from . import formulas\n    return formulas.formula(*args, **kw)\n",
+     "    from . import formulas\n    if args and isinstance(args[0], str) and not kw and args in _SEEN:\n        return _SEEN[args]\n    r = formulas.formula(*args, **kw)\n    if args and isinstance(args[0], str) and not kw:\n        _SEEN[args] = r\n    return r\n_SEEN = {}\n",
+     "the package-level formula() remembers string requests and hands the same object out again"),
+    ("C01", "silent", I_, "    from . import formulas\n    return formulas.formula(*args, **kw)\n",
+     "    from . import formulas as _f\n    result = _f.formula(*args, **kw)\n    return result\n", "same pass-through, other spelling"),
     # ---- C02
     ("C02", "fire", F, "ret.structure = ((other*q, f), )", "ret.structure = ((other+q, f), )", "single-fragment shortcut adds"),
     ("C02", "silent", F, "ret.structure = ((other*q, f), )", "ret.structure = ((q*other, f), )", "commuted product"),
@@ -79,6 +84,12 @@ MUTANTS = [
     ("C09", "fire", X, '    for row in spectral_lines_data.split(\'\\n\'):\n        el, K_alpha, K_beta1 = row.split()\n        el = table.symbol(el)\n        el.K_alpha = float(K_alpha)\n        el.K_beta1 = float(K_beta1)\n    # Set the units after the per-element values: if the delayed-load\n    # properties are still pending, the first assignment above clears all\n    # of them, including the units.\n    Element.K_alpha_units = "angstrom"\n    Element.K_beta1_units = "angstrom"\n', '    Element.K_alpha_units = "angstrom"\n    Element.K_beta1_units = "angstrom"\n    for row in spectral_lines_data.split(\'\\n\'):\n        el, K_alpha, K_beta1 = row.split()\n        el = table.symbol(el)\n        el.K_alpha = float(K_alpha)\n        el.K_beta1 = float(K_beta1)\n', "units written before the per-element values (cleared by the pending setter on a direct call)"),
     ("C09", "silent", CR, "    table[0].covalent_radius = 0.20\n    Element.covalent_radius_units = 'angstrom'\n    Element.covalent_radius = None\n    Element.covalent_radius_uncertainty = None\n",
      "    Element.covalent_radius_units = 'angstrom'\n    Element.covalent_radius = None\n    Element.covalent_radius_uncertainty = None\n    table[0].covalent_radius = 0.20\n", "class defaults written before the first instance write (all three names are overwritten: harmless)"),
+    ("C05", "fire", CM, "        rvflat[stolflat > self.stollimit] = numpy.nan", "        rvflat[stolflat >= self.stollimit] = numpy.nan",
+     "the fitted range loses its closed end (f0 at exactly Q = 24 pi becomes NaN)"),
+    ("C14", "fire", A, "                precision_correction = W * (exp(-U)-exp(-V))", "                precision_correction = -W * exp(-U)*expm1(U-V)",
+     "algebraically the same, but expm1(U-V) overflows for strongly absorbing targets at high fluence and long exposure"),
+    ("C14", "silent", A, "                precision_correction = W * (exp(-U)-exp(-V))", "                precision_correction = W * exp(-U) - W * exp(-V)",
+     "distributed product, every exponent still non-positive"),
     # ---- C10
     ("C10", "fire", CS, "        table[Z].crystal_structure = dict(struct) if struct is not None else None", "        table[Z].crystal_structure = struct", "module-level dicts shared again"),
     ("C10", "fire", C, "            if el.table != PUBLIC_TABLE_NAME:\n                loader()\n", "", "the setter no longer loads the public table when a private table is written first (reverse of the fix)"),
